@@ -1,5 +1,6 @@
 import LarkVerif.LineCounter
-/-! # C06 — token and tree positions are exact source coordinates (token half; meta: see evidence `not_proved`) -/
+import LarkVerif.Positions
+/-! # C06 — token and tree positions are exact source coordinates -/
 namespace Props.C06
 open LCProto
 
@@ -53,5 +54,30 @@ theorem window_start_exact (text : List Char) (start : Nat) (h : start ≤ text.
 -- non-vacuity and the flag's necessity (the mechanism behind finding F1)
 example : stampAt ['b', '\n', 'b'] 2 3 true = ⟨2, 2, 1, 3, 2, 2⟩ := by decide
 example : (stampAll LineCounter.init [(['b'], false), (['\n'], false), (['b'], false)]).getLast? = some ⟨2, 1, 3, 3, 1, 4⟩ := by decide
+
+/-- **Tree meta, `propagate_positions`.**  For every derivation (any grammar, any engine: they all run the same callback chain), outside the region
+    of finding F19 (`cleanB`, evaluated by the driver on every real derivation): in the value every tree of the forest is shaped into, each tree
+    whose rule matched at least one token carries exactly the span from the start of the first to the end of the last token that rule matched —
+    filtered tokens included — and the span its parent sees for it is the span of the derivation that returned it (hence ordered, disjoint, nested). -/
+theorem tree_meta_exact (d : ShapeProto.D) (h : PosProto.cleanB d = true) :
+    (∀ x ∈ PosProto.evalP d, ∀ p ∈ PosProto.metas x.2, p.2 ≠ none → p.1 = p.2) ∧
+    (PosProto.evalP d).map (fun x => PosProto.cand x.2) = PosProto.spans d :=
+  ⟨fun x hx => PosProto.metas_exact x.2 ((PosProto.evalP_inv d h).2 x hx), (PosProto.evalP_inv d h).1⟩
+
+section
+open ShapeProto PosProto
+private def sT : SymInfo := ⟨true, false, false⟩    -- a kept terminal
+private def sF : SymInfo := ⟨true, true, false⟩     -- a filtered terminal
+private def sR : SymInfo := ⟨false, false, false⟩   -- a rule
+private def rr (e1 : Bool) : RuleInfo := ⟨0, Option.none, e1, false, [false, false]⟩
+/-- non-vacuity: `start: r A`, `r: _U B` on "u b a" — `r` spans the filtered `u` too -/
+example : cleanB (D.node sR (rr false) (D.node sR (rr false) (D.leaf sF 0 1 (D.leaf sT 2 3 D.nil)) (D.leaf sT 4 5 D.nil)) D.nil) = true := by decide
+example : (evalP (D.node sR (rr false) (D.node sR (rr false) (D.leaf sF 0 1 (D.leaf sT 2 3 D.nil)) (D.leaf sT 4 5 D.nil)) D.nil)).map (fun x => metas x.2)
+    = [[(some (0, 5), some (0, 5)), (some (0, 3), some (0, 3))]] := by decide
+/-- and the hypothesis is needed — finding F19's witness: with `?r` the model (like lark) gives `start` the span 2..5 instead of 0..5 -/
+example : cleanB (D.node sR (rr false) (D.node sR (rr true) (D.leaf sF 0 1 (D.leaf sT 2 3 D.nil)) (D.leaf sT 4 5 D.nil)) D.nil) = false := by decide
+example : (evalP (D.node sR (rr false) (D.node sR (rr true) (D.leaf sF 0 1 (D.leaf sT 2 3 D.nil)) (D.leaf sT 4 5 D.nil)) D.nil)).map (fun x => metas x.2)
+    = [[(some (2, 5), some (0, 5))]] := by decide
+end
 
 end Props.C06
